@@ -103,13 +103,35 @@ let find_alias (v : Abs.volume) (s : Tree.tstate) (d : coq_N) (name : coq_N list
 let pattern (n : int) (seed : int) : coq_N list =
   Stdlib.List.init n (fun i -> n_of_int ((seed + i * 7 + i / 251) mod 256))
 
-let run_script (si : int) (ops : opblock list) (do_wf : bool) (do_tree : bool) (do_info : bool) (do_regions : bool) (sparse_info : bool) : unit =
+let run_script (si : int) (ops : opblock list) (do_wf : bool) (do_tree : bool) (do_info : bool) (do_regions : bool) (sparse_info : bool) (do_crash : bool) (crash_stride : int) : unit =
   Printf.printf "S %d\n" si;
   let im = ref (Image.img_empty N0) in
   let ts = ref Tree.ts_init in
   let formatted = ref false in
   let oem = ref oem_lossy in
   let stop = ref false in
+  (* C14: facts established by a successful flush/drop: (node id, names from the root, content) *)
+  let facts : (coq_N * coq_N list list * coq_N list) list ref = ref [] in
+  let crash_checks = ref 0 in
+  let check_facts oi wi =
+    if !facts <> [] then begin
+      let v = Abs.abs !im in
+      Stdlib.List.iter (fun (_, path, content) ->
+        incr crash_checks;
+        let rec split = function [] -> ([], []) | [x] -> ([], x) | x :: r -> let (a, b) = split r in (x :: a, b) in
+        let (dirs, name) = split path in
+        let found =
+          match abs_dir_children v.Abs.v_root dirs with
+          | None -> false
+          | Some ch ->
+            let u = Str.utf16_encode name in
+            Stdlib.List.exists (fun n -> match n with
+              | Abs.NFile (e, _, c) -> e.Abs.e_lfn = u && c = content
+              | _ -> false) ch in
+        if not found then
+          Printf.printf "C %d %d %s\n" oi wi (hex_of_bytes (Str.utf8_encode (Stdlib.List.concat (Stdlib.List.map (fun x -> n_of_int 47 :: x) path))))
+      ) !facts
+    end in
   Stdlib.List.iteri (fun oi b ->
     if not !stop then begin
       (* 0. classification of the writes of this op against the volume as it was before the op *)
@@ -157,10 +179,24 @@ let run_script (si : int) (ops : opblock list) (do_wf : bool) (do_tree : bool) (
             cur := Image.img_write !cur o bs
           | _ -> ()) (Stdlib.List.rev b.events)
       end;
-      (* 1. device writes of this op *)
+      (* 1. device writes of this op; with "crash": after every single write the image is a possible post-crash state *)
+      (if do_crash then begin
+         (* facts about the file this op modifies (or about anything, for remove/rename) are withdrawn first *)
+         (match b.toks with
+          | op :: fh :: _ when Stdlib.List.mem op ["write"; "write_all"; "write_pat"; "truncate"] ->
+            (match Tree.file_of_handle !ts (n_of_string fh) with
+             | Some f -> facts := Stdlib.List.filter (fun (id, _, _) -> id <> f.Tree.fh_node) !facts
+             | None -> ())
+          | ("remove" | "rename") :: _ -> facts := []
+          | _ -> ())
+       end);
+      let wi = ref 0 in
       Stdlib.List.iter (fun ev ->
         match ev with
-        | "w" :: off :: hx :: _ -> im := Image.img_write !im (n_of_string off) (bytes_of_hex hx)
+        | "w" :: off :: hx :: _ ->
+          im := Image.img_write !im (n_of_string off) (bytes_of_hex hx);
+          incr wi;
+          if do_crash && !formatted && (crash_stride <= 1 || !wi mod crash_stride = 0) then check_facts oi !wi
         | _ -> ()) (Stdlib.List.rev b.events);
       let t = b.toks in
       let okp = b.rkind = "ok" in
@@ -183,6 +219,7 @@ let run_script (si : int) (ops : opblock list) (do_wf : bool) (do_tree : bool) (
         (* 2. abstract machine *)
         let v = lazy (Abs.abs !im) in
         if do_tree then begin
+          let ts_before = !ts in
           let res_err () = match split_ws b.rpayload with
             | name :: _ -> (match error_of_name name with Some e -> Some (Tree.RErr e) | None -> None)
             | [] -> None in
@@ -268,6 +305,19 @@ let run_script (si : int) (ops : opblock list) (do_wf : bool) (do_tree : bool) (
               | Tree.VBad c -> Printf.printf "O %d bad %s\n" oi (string_of_n c))
            | Some (_, None) -> Printf.printf "X %d unparsed-result %s %s\n" oi b.rkind b.rpayload
            | None -> ());
+          (if do_crash && okp then
+             match b.toks with
+             | ("flush" | "drop_file") :: fh :: _ ->
+               (match Tree.file_of_handle ts_before (n_of_string fh) with
+                | Some f ->
+                  (match Tree.find_node !ts f.Tree.fh_node with
+                   | Some nd ->
+                     let path = names_to_root !ts nd.Tree.t_parent [] @ [nd.Tree.t_name] in
+                     facts := (nd.Tree.t_id, path, nd.Tree.t_content) :: Stdlib.List.filter (fun (id, _, _) -> id <> nd.Tree.t_id) !facts;
+                     check_facts oi 0
+                   | None -> ())
+                | None -> ())
+             | _ -> ());
           if (!ts).Tree.ts_tainted then (Printf.printf "T %d\n" oi; stop := true)
           else if !formatted && step <> None then
             if not (Tree.tree_matches_abs !ts (Lazy.force v)) then Printf.printf "M %d\n" oi
@@ -292,10 +342,11 @@ let run_script (si : int) (ops : opblock list) (do_wf : bool) (do_tree : bool) (
             (string_of_n (Abs.g_bits g)) (string_of_n (Abs.g_clusters g))
         end
       end
-    end) ops
+    end) ops;
+  if do_crash then Printf.printf "N 0 %d\n" !crash_checks
 
 let main (flags : string list) : unit =
   let has f = Stdlib.List.mem f flags in
   (match Sys.getenv_opt "FATFS_UPPER_TABLE" with Some p -> load_upper p | None -> ());
   let scripts = read_transcript () in
-  Stdlib.List.iteri (fun si ops -> run_script si ops (has "wf") (has "tree") (has "info" || has "infos") (has "regions") (has "infos")) scripts
+  Stdlib.List.iteri (fun si ops -> run_script si ops (has "wf") (has "tree") (has "info" || has "infos") (has "regions") (has "infos") (has "crash" || has "crash4") (if has "crash4" then 4 else 1)) scripts
